@@ -6,18 +6,22 @@ import json, os, subprocess, sys, time, glob
 sys.path.insert(0, os.path.dirname(__file__))
 from mutant import detect, ROOT
 def main():
-    sel = sys.argv[1:]
+    redo = '--all' in sys.argv
+    sel = [a for a in sys.argv[1:] if a != '--all']
     dirs = sorted(glob.glob(ROOT + '/seeded/*/*/'))
     for d in dirs:
         rel = '/'.join(d.rstrip('/').split('/')[-2:])
         if sel and rel not in sel: continue
         mp = os.path.join(d, 'meta.json')
         meta = json.load(open(mp))
-        if not sel and 'official' in meta: continue
+        if not sel and not redo and 'official' in meta: continue
         pid = rel.split('/')[0]
         ids = meta.get('run_ids', [pid])
         res = detect(os.path.join(d, 'patch.diff'), ids)
-        meta['official'] = {'at_repo_commit': subprocess.run('git -C /repo log --format=%h -1', shell=True, capture_output=True, text=True).stdout.strip(), 'results': res}
+        if 'error' in res:
+            print(rel, 'ERROR', res['error'], flush=True)
+            continue
+        meta['official'] = {'at_verif_commit': subprocess.run('git -C ' + ROOT + ' log --format=%h -1', shell=True, capture_output=True, text=True).stdout.strip(), 'at_repo_commit': subprocess.run('git -C /repo log --format=%h -1', shell=True, capture_output=True, text=True).stdout.strip(), 'results': res}
         meta['detected_by'] = [k for k, v in res.items() if v['violation']]
         json.dump(meta, open(mp, 'w'), indent=1)
         print(rel, {k: ('CAUGHT' if v['violation'] else 'missed') for k, v in res.items()}, flush=True)
